@@ -510,6 +510,7 @@ def run_restart(kind, pre):
                 w.inst.sync_handler(base + [vec_component({'s': 0, 'p': 1}), ts.tlv(2, b'\x00' * 32)], None, lambda d: True, {})
             w.loop.drain()
         rounds = 2 if kind == 'second-loop-twice' else 1
+        known_before = nz(w.local())
         for _ in range(rounds):
             if kind.startswith('second-loop'):
                 inst = w.inst
@@ -543,6 +544,10 @@ def run_restart(kind, pre):
         w.loop.drain()
         vecs = sync_vectors(w.new_interests())
         want = nz(w.local())
+        lost = {k: v for k, v in known_before.items() if k != 's' and want.get(k, 0) < v}
+        if lost:
+            viol.append((f'C18|restart|{kind}|vector-decreased', f'after stop() / start() the local vector is {want}, it was {known_before} before '
+                                                                f'(before the restart: {list(pre)})'))
         if got != seq0 + 1:
             viol.append((f'C18|restart|{kind}|publish-seq', f'publication after the restart got sequence number {got}, the one before was {seq0}'))
         if len(vecs) != 1:
